@@ -690,6 +690,7 @@ typedef struct {
     int tpool;         /* pool index of the targets */
 } jtrial_t;
 
+static int c_jmany_null;
 static int c_jtrials, c_jcaller[5], c_jbehav[7], c_jtiming[3], c_jmany, c_jdistinct;
 
 static void jhelper_fn(void *arg)
@@ -838,11 +839,24 @@ static void jjoiner_do(jtrial_t *t)
         }
         jcheck_after(t, "ABT_thread_free", 0);
     } else {
+        /* the list may contain ABT_THREAD_NULL entries, which are skipped */
+        ABT_thread list[2 * 8 + 2];
+        int pos[8], nl = 0;
+        for (int k = 0; k < t->ntargets && k < 8; k++) {
+            if ((vrt_hash64(t->salt + (uint64_t)k) & 3) == 0) {
+                list[nl++] = ABT_THREAD_NULL;
+                vrt_count(c_jmany_null, 1);
+            }
+            pos[k] = nl;
+            list[nl++] = t->th[k];
+        }
         if (vrt_hash64(t->salt) & 1) {
-            VRT_ABT(ABT_thread_join_many(t->ntargets, t->th));
+            VRT_ABT(ABT_thread_join_many(nl, list));
             jcheck_after(t, "ABT_thread_join_many", 1);
         }
-        VRT_ABT(ABT_thread_free_many(t->ntargets, t->th));
+        VRT_ABT(ABT_thread_free_many(nl, list));
+        for (int k = 0; k < t->ntargets && k < 8; k++)
+            t->th[k] = list[pos[k]];
         jcheck_after(t, "ABT_thread_free_many", 0);
         vrt_count(c_jmany, 1);
     }
@@ -1092,6 +1106,7 @@ typedef struct {
     int nwatch;
 } bctx2_t;
 static bctx2_t g_b;
+static int c_bacc[3];
 static int c_bscen, c_bsteps[6], c_bjoin_with_blocked, c_bsamples, c_bfinalize, c_bexact, c_bstacked;
 
 static int32_t pool_num_blocked(ABT_pool pool)
@@ -1220,7 +1235,15 @@ static void run_block_scenario(vrt_rng *r, int idx, int max_es)
         sp = ABT_SCHED_BASIC; /* no stealing from the observed pool */
     VRT_ABT(ABT_init(0, NULL));
     world_t w;
+    /* the victim's pool has one consumer; units are pushed by the creator, by
+     * the resumer and by the stream itself */
+    static const ABT_pool_access accs[] = { ABT_POOL_ACCESS_MPMC, ABT_POOL_ACCESS_MPSC, ABT_POOL_ACCESS_MPSC,
+                                            ABT_POOL_ACCESS_SPSC };
+    int acc_i = (int)vrt_range(r, 4);
+    w_private_access = accs[acc_i];
+    vrt_count(c_bacc[acc_i == 0 ? 0 : acc_i == 3 ? 2 : 1], 1);
     world_create(&w, nes, shared, pk, sp);
+    w_private_access = ABT_POOL_ACCESS_MPMC;
     int victim = 1 + (int)vrt_range(r, (uint64_t)nes - 1);
     ABT_pool target_pool = variant == 1 ? w.pools[0] : w.pools[victim];
     ABT_pool stacked_pool = ABT_POOL_NULL;
@@ -1730,7 +1753,7 @@ static struct {
     int replace_kind;
     int replaced;    /* atomic */
 } g_jm;
-static int c_jm_replace2;
+static int c_jm_replace2, c_jm_replace_own;
 static int c_jmscen, c_jm_multi, c_jm_replace, c_jm_revive, c_jm_units;
 static void jm_unit(void *arg)
 {
@@ -1773,6 +1796,14 @@ static void jm_replacer2(void *arg)
     VRT_ABT(ABT_xstream_set_main_sched_basic(xs, (ABT_sched_predef)a->kind, n, pools));
     __atomic_fetch_add(a->ran, 1, __ATOMIC_SEQ_CST);
 }
+static void jm_replacer_own(void *arg)
+{
+    jm_rep2_t *a = (jm_rep2_t *)arg;
+    ABT_xstream xs;
+    VRT_ABT(ABT_self_get_xstream(&xs));
+    VRT_ABT(ABT_xstream_set_main_sched_basic(xs, (ABT_sched_predef)a->kind, 1, &a->first));
+    __atomic_fetch_add(a->ran, 1, __ATOMIC_SEQ_CST);
+}
 static void *jm_joiner(void *arg)
 {
     ABT_xstream xs = (ABT_xstream)arg;
@@ -1792,16 +1823,19 @@ static void run_joinmix(vrt_rng *r, int idx)
     int kind = pk[vrt_range(r, 3)], sched = sp[vrt_range(r, 4)];
     if (sched == ABT_SCHED_BASIC_WAIT)
         kind = ABT_POOL_FIFO_WAIT;
-    /* 0 multi-pool join, 1 join overlapping replacement, 2 join-revive-join, 3 two replacements back to back */
-    int variant = (int)vrt_range(r, 4);
+    /* 0 multi-pool join, 1 join overlapping replacement, 2 join-revive-join, 3 two replacements back to back,
+     * 4 a unit living in a non-first pool replaces the scheduler by one over a pool of its own */
+    int variant = (int)vrt_range(r, 5);
     /* a pool shared by the victim and a helper stream, listed first, normally
      * empty; then 1-2 private pools */
     ABT_pool shared, priv[2];
     VRT_ABT(ABT_pool_create_basic((ABT_pool_kind)kind, ABT_POOL_ACCESS_MPMC, ABT_FALSE, &shared));
     int npriv = 1 + (int)vrt_range(r, 2);
+    /* the private pools have one consumer (the victim) and several producers */
+    ABT_pool_access pacc = vrt_range(r, 2) ? ABT_POOL_ACCESS_MPSC : ABT_POOL_ACCESS_MPMC;
     for (int i = 0; i < npriv; i++)
-        VRT_ABT(ABT_pool_create_basic((ABT_pool_kind)kind, ABT_POOL_ACCESS_MPMC, ABT_FALSE, &priv[i]));
-    int shared_first = variant == 0 ? 1 : (int)vrt_range(r, 2);
+        VRT_ABT(ABT_pool_create_basic((ABT_pool_kind)kind, pacc, ABT_FALSE, &priv[i]));
+    int shared_first = (variant == 0 || variant == 4) ? 1 : (int)vrt_range(r, 2);
     g_jm.npools = 0;
     if (shared_first)
         g_jm.pools[g_jm.npools++] = shared;
@@ -1815,7 +1849,7 @@ static void run_joinmix(vrt_rng *r, int idx)
     VRT_ABT(ABT_xstream_create_basic((ABT_sched_predef)sched, 1, hp, ABT_SCHED_CONFIG_NULL, &helper));
     /* the work is queued before the victim exists so that the join finds it
      * in the private pools */
-    int n = 1 + (int)vrt_range(r, JMAXU - 2), nrep = 0;
+    int n = variant == 4 ? 0 : 1 + (int)vrt_range(r, JMAXU - 2), nrep = 0;
     for (int i = 0; i < n; i++) {
         ABT_pool p = priv[vrt_range(r, (uint64_t)npriv)];
         if (vrt_range(r, 3) == 0)
@@ -1832,6 +1866,16 @@ static void run_joinmix(vrt_rng *r, int idx)
     }
     ABT_pool own[2] = { ABT_POOL_NULL, ABT_POOL_NULL };
     static jm_rep2_t rep2[2];
+    if (variant == 4) {
+        /* the only unit; it is in pools[1] (or later) of the victim's scheduler */
+        VRT_ABT(ABT_pool_create_basic((ABT_pool_kind)kind, ABT_POOL_ACCESS_MPMC, ABT_FALSE, &own[0]));
+        rep2[0].ran = &g_jm.ran[0];
+        rep2[0].first = own[0];
+        rep2[0].kind = rp[vrt_range(r, 2)];
+        VRT_ABT(ABT_thread_create(priv[npriv - 1], jm_replacer_own, &rep2[0], ABT_THREAD_ATTR_NULL, NULL));
+        nrep = 1;
+        vrt_count(c_jm_replace_own, 1);
+    }
     if (variant == 3) {
         for (int k = 0; k < 2; k++) {
             VRT_ABT(ABT_pool_create_basic((ABT_pool_kind)kind, ABT_POOL_ACCESS_MPMC, ABT_FALSE, &own[k]));
@@ -1856,7 +1900,8 @@ static void run_joinmix(vrt_rng *r, int idx)
                           "ABT_xstream_join returned, but unit %d of %d in a pool only this stream schedules ran %d times "
                           "(variant %d: %s; scheduler %s over %d pools, shared pool listed %s)", i, n + nrep, g_jm.ran[i],
                           variant, variant == 0 ? "multi-pool" : variant == 1 ? "replacement after the join was issued"
-                                      : variant == 2 ? "join-revive-join" : "two replacements back to back",
+                                      : variant == 2 ? "join-revive-join" : variant == 3 ? "two replacements back to back"
+                                                     : "replacement by a unit in a non-first pool",
                           w_sched_name(sched), g_jm.npools, shared_first ? "first" : "last");
             break;
         }
@@ -1909,8 +1954,11 @@ static void run_joinmix(vrt_rng *r, int idx)
                    "listed %s), %d units queued in its private pools, variant %s", idx, w_sched_name(sched), g_jm.npools,
                    w_pool_kind_name(kind), shared_first ? "first" : "last", n,
                    variant == 0 ? "join at once" : variant == 1 ? "main scheduler replaced by a unit after the join was issued"
-                   : variant == 2 ? "join, revive, idle, new work, join" : "two units replace the main scheduler back to back");
-    vrt_signature_add("jm:%s,%s,p%d,s%d,v%d", w_sched_name(sched), w_pool_kind_name(kind), g_jm.npools, shared_first, variant);
+                   : variant == 2 ? "join, revive, idle, new work, join"
+                   : variant == 3 ? "two units replace the main scheduler back to back"
+                                  : "the only unit, in a non-first pool, replaces the scheduler by one over its own pool");
+    vrt_signature_add("jm:%s,%s,p%d,s%d,v%d,a%d", w_sched_name(sched), w_pool_kind_name(kind), g_jm.npools, shared_first, variant,
+                      pacc == ABT_POOL_ACCESS_MPSC);
     vrt_count(c_jm_units, (uint64_t)n);
     vrt_count(c_jmscen, 1);
     vrt_count(c_cases, 1);
@@ -2068,9 +2116,11 @@ static void run_susp(vrt_rng *r, int idx, int max_es, int rounds)
 /* mode=direct (C11 part B): chains of directed switches on one stream */
 enum { DS_FRESH = 0, DS_INPOOL, DS_POPPED, DS_BLOCKED, DS_RUNNING, DS_TERMINATED };
 enum { DO_YIELD_TO = 0, DO_THREAD_YIELD_TO, DO_CREATE_TO, DO_REVIVE_TO, DO_SUSPEND_TO, DO_RESUME_YIELD_TO,
-       DO_RESUME_SUSPEND_TO, DO_EXIT_TO, DO_RESUME_EXIT_TO, DO_YIELD, DO_SUSPEND, DO_RESUME, DO_NOPS };
+       DO_RESUME_SUSPEND_TO, DO_EXIT_TO, DO_RESUME_EXIT_TO, DO_YIELD, DO_SUSPEND, DO_RESUME, DO_CANCEL_RESUME_YIELD_TO,
+       DO_NOPS };
 static const char *do_name[] = { "yield_to", "thread_yield_to", "create_to", "revive_to", "suspend_to", "resume_yield_to",
-                                 "resume_suspend_to", "exit_to", "resume_exit_to", "yield", "self_suspend", "resume" };
+                                 "resume_suspend_to", "exit_to", "resume_exit_to", "yield", "self_suspend", "resume",
+                                 "cancel_self_then_resume_yield_to" };
 #define DMAXW 48
 typedef struct {
     int id;
@@ -2312,12 +2362,30 @@ static void dworker(void *arg)
             case DO_RESUME_YIELD_TO:
             case DO_RESUME_SUSPEND_TO:
             case DO_RESUME_EXIT_TO:
+            case DO_CANCEL_RESUME_YIELD_TO:
                 t = d_pick(DS_BLOCKED, me->id);
                 if (t < 0)
                     break;
                 vrt_count(c_dstarted_target, 1);
                 g_d.w[t].st = DS_POPPED;
-                if (op == DO_RESUME_YIELD_TO) {
+                if (op == DO_CANCEL_RESUME_YIELD_TO) {
+                    if (g_d.active > 2 && d_pick(DS_BLOCKED, me->id) < 0) {
+                        /* a cancellation request is pending on the caller when
+                         * it hands over: it is terminated in the hand-over
+                         * (its next scheduling point), the target runs next */
+                        d_post(me, t, op, ABT_THREAD_STATE_TERMINATED);
+                        me->st = DS_TERMINATED;
+                        g_d.active--;
+                        VRT_ABT(ABT_thread_cancel(me->th));
+                        ABT_self_resume_yield_to(g_d.w[t].th);
+                        vrt_violation("direct:ran-after-cancel", "worker %d continued after a scheduling point although it "
+                                      "had been cancelled before", me->id);
+                    } else {
+                        d_post(me, t, DO_RESUME_YIELD_TO, ABT_THREAD_STATE_READY);
+                        me->st = DS_INPOOL;
+                        VRT_ABT(ABT_self_resume_yield_to(g_d.w[t].th));
+                    }
+                } else if (op == DO_RESUME_YIELD_TO) {
                     d_post(me, t, op, ABT_THREAD_STATE_READY);
                     me->st = DS_INPOOL;
                     VRT_ABT(ABT_self_resume_yield_to(g_d.w[t].th));
@@ -3162,7 +3230,7 @@ typedef struct {
     ABT_pool home;
     int cbs, slices_elsewhere;
 } me_unit_t;
-static int c_mrej_own_multi;
+static int c_mrej_own_multi, c_mattr_cb;
 static void me_cb(ABT_thread th, void *arg)
 {
     (void)th;
@@ -3428,6 +3496,45 @@ static void run_migrate(vrt_rng *r, int idx)
             VRT_ABT(ABT_thread_free(&t));
             vrt_count(c_mrej_own_multi, 1);
         }
+        /* a unit created non-migratable with a migration callback in its
+         * attributes, made migratable later: the callback runs when it moves */
+        if (vrt_num_violations() == 0) {
+            me_unit_t u;
+            memset(&u, 0, sizeof(u));
+            ABT_thread t;
+            ABT_thread_attr attr;
+            VRT_ABT(ABT_thread_attr_create(&attr));
+            VRT_ABT(ABT_thread_attr_set_migratable(attr, ABT_FALSE));
+            VRT_ABT(ABT_thread_attr_set_callback(attr, me_cb, &u));
+            VRT_ABT(ABT_thread_create(q[0], me_unit_fn, &u, attr, &t));
+            VRT_ABT(ABT_thread_attr_free(&attr));
+            for (;;) {
+                ABT_thread_state st;
+                VRT_ABT(ABT_thread_get_state(t, &st));
+                if (st == ABT_THREAD_STATE_BLOCKED)
+                    break;
+                ABT_thread_yield();
+            }
+            int rc0 = ABT_thread_migrate_to_pool(t, q[1]);
+            VRT_CHECK(rc0 != ABT_SUCCESS, "migrate:nonmigratable-accepted", "request for a unit created non-migratable "
+                      "returned success");
+            VRT_ABT(ABT_thread_set_migratable(t, ABT_TRUE));
+            int rc1 = ABT_thread_migrate_to_pool(t, q[1]);
+            VRT_CHECK(rc1 == ABT_SUCCESS, "migrate:valid-request-rejected", "request after ABT_thread_set_migratable(TRUE) "
+                      "returned %d", rc1);
+            VRT_ABT(ABT_thread_resume(t));
+            VRT_ABT(ABT_thread_join(t));
+            ABT_pool lp;
+            VRT_ABT(ABT_thread_get_last_pool(t, &lp));
+            if (vrt_num_violations() == 0 && rc1 == ABT_SUCCESS) {
+                VRT_CHECK(lp == q[1] && u.slices_elsewhere > 0, "migrate:not-moved", "unit made migratable after creation did "
+                          "not move to the requested pool");
+                VRT_CHECK(u.cbs == 1, "migrate:callback-count", "unit created with a migration callback in its attributes "
+                          "(non-migratable at first): one performed migration, callback ran %d times", u.cbs);
+            }
+            VRT_ABT(ABT_thread_free(&t));
+            vrt_count(c_mattr_cb, 1);
+        }
         VRT_ABT(ABT_xstream_join(qx));
         VRT_ABT(ABT_xstream_free(&qx));
     }
@@ -3521,6 +3628,7 @@ int main(int argc, char **argv)
     } else if (!strcmp(mode, "join")) {
         c_jtrials = vrt_counter("join_trials");
         c_jmany = vrt_counter("join_many_trials");
+        c_jmany_null = vrt_counter("join_many_null_entries");
         for (int i = 0; i < 5; i++) {
             char nm[64];
             snprintf(nm, sizeof(nm), "caller_%s", jc_name[i]);
@@ -3539,6 +3647,9 @@ int main(int argc, char **argv)
         run_join(&r, (int)vrt_arg_int("trials", 400));
     } else if (!strcmp(mode, "block")) {
         c_bscen = vrt_counter("block_scenarios");
+        c_bacc[0] = vrt_counter("block_victim_pool_mpmc");
+        c_bacc[1] = vrt_counter("block_victim_pool_mpsc");
+        c_bacc[2] = vrt_counter("block_victim_pool_spsc");
         c_bsteps[BS_EVENTUAL] = vrt_counter("blocked_on_eventual");
         c_bsteps[BS_COND] = vrt_counter("blocked_on_cond");
         c_bsteps[BS_SUSPEND] = vrt_counter("self_suspended");
@@ -3557,6 +3668,7 @@ int main(int argc, char **argv)
         c_jm_multi = vrt_counter("joinmix_multi_pool_joins");
         c_jm_replace = vrt_counter("joinmix_joins_overlapping_sched_replacement");
         c_jm_replace2 = vrt_counter("joinmix_two_replacements_back_to_back");
+        c_jm_replace_own = vrt_counter("joinmix_replacement_by_unit_in_non_first_pool");
         c_jm_revive = vrt_counter("joinmix_revive_idle_work_join_rounds");
         c_jm_units = vrt_counter("joinmix_units");
         int n = (int)vrt_arg_int("scenarios", 60);
@@ -3627,6 +3739,7 @@ int main(int argc, char **argv)
         c_mself_req = vrt_counter("self_issued_requests");
         c_mcb = vrt_counter("callbacks");
         c_mrej_own_multi = vrt_counter("rejected_own_stream_with_multi_pool_scheduler");
+        c_mattr_cb = vrt_counter("callback_from_attributes_of_unit_made_migratable_later");
         c_mrej_same_pool = vrt_counter("rejected_current_pool");
         c_mrej_nonmigratable = vrt_counter("rejected_non_migratable");
         c_mrej_mainsched = vrt_counter("rejected_main_scheduler_ult");
